@@ -102,7 +102,10 @@ def check_got_vs_want(want, got_stdout, got_eval=constants.NOT_EVALED,
             if not flag:
                 # allow eval to fallback and save us, but if it fails, do a
                 # diff with stdout
-                got = repr(got_eval)
+                try:
+                    got = repr(got_eval)
+                except Exception as ex:
+                    raise ExtractGotReprException('Error calling repr for {}. Caused by: {!r}'.format(type(got_eval), ex), ex)
                 flag = check_output(got, want, runstate)
                 if not flag:
                     got = got_stdout
